@@ -142,6 +142,41 @@ def check_domains(ctx):
                 len(b.body.args) == 2 and U(b.body.args[1]) == U(fwd.args[1])
         ctx.ob('domain-restored', cd, r, ok, 'the undo map must reverse the forward map with the same supports table: '
                'transform_data(data, S) paired with lambda d: reverse_data(d, S)')
+    # ---- the forward and the backward map keep the attribute set ---------------------------------------------------
+    for q in ('transform_data', 'reverse_data'):
+        fi = repo.func('mechanisms/mst.py', q)
+        ctx.analysed(fi)
+        data = fi.params[0]
+        loops = [s for s in fi.body if isinstance(s, ast.For) and U(s.iter) in (data + '.domain', data + '.domain.attrs')]
+        rets = [r for r in walk_shallow(fi.node) if isinstance(r, ast.Return)]
+        dom_name = None
+        if rets and isinstance(rets[-1].value, ast.Call) and U(rets[-1].value.func) == 'Dataset' and len(rets[-1].value.args) >= 2:
+            dom_name = U(rets[-1].value.args[1])
+        ok, why = False, 'unrecognised shape'
+        if len(loops) == 1 and dom_name:
+            col = U(loops[0].target)
+            stores = [s for s in loops[0].body if isinstance(s, ast.Assign) and isinstance(s.targets[0], ast.Subscript)
+                      and U(s.targets[0].slice) == col]
+            dict_names = {U(s.targets[0].value) for s in stores}
+            # newdom = Domain.fromdict(<dict>) after the loop; the dict must not be filtered / rebuilt in between
+            after = fi.body[fi.body.index(loops[0]) + 1:]
+            rebuilt = []
+            src = None
+            for s in after:
+                if isinstance(s, ast.Assign) and len(s.targets) == 1 and isinstance(s.targets[0], ast.Name):
+                    if U(s.targets[0]) == dom_name and isinstance(s.value, ast.Call) and U(s.value.func) in ('Domain.fromdict',) \
+                            and U(s.value.args[0]) in dict_names:
+                        src = U(s.value.args[0])
+                    elif U(s.targets[0]) in dict_names and U(s.targets[0]) != dom_name:
+                        rebuilt.append(s)
+                    elif U(s.targets[0]) in dict_names and not (isinstance(s.value, ast.Call) and U(s.value.func) == 'Domain.fromdict'):
+                        rebuilt.append(s)
+            skips = [n for n in ast.walk(loops[0]) if isinstance(n, ast.Continue)]
+            ok = bool(stores) and src is not None and not rebuilt and not skips
+            why = 'stores %d, built from `%s`, rebuilt/filtered %s, skipped iterations %d' % (len(stores), src, [U(x)[:50] for x in rebuilt], len(skips))
+        ctx.ob('domain-restored', fi, loops[0] if loops else fi.node, ok,
+               '%s must give every attribute of its input an entry of the domain it returns (unconditional store per attribute, no '
+               'filtering afterwards): an attribute dropped here is never restored by the undo map; %s' % (q, why))
     # ---- the other three: engine built on the input's own domain --------------------------------------------------------
     for rel, q in (('mechanisms/aim.py', 'AIM.run'), ('mechanisms/mwem+pgm.py', 'mwem_pgm'), ('mechanisms/adaptive_grid.py', 'adagrid')):
         fi = repo.func(rel, q)
